@@ -48,6 +48,9 @@ pub mod store;
 pub mod sync;
 
 mod heads;
+#[cfg(feature = "verif-hooks")]
+#[allow(missing_docs)]
+pub mod verif;
 mod keys;
 mod ranger;
 
